@@ -47,6 +47,11 @@ def builder_adds(eff: List[Any]) -> List[Dict[str, Any]]:
             where, val = "front", e.value
         else:
             continue
+        d_ = getattr(val, "iter_descr", None)
+        if (d_ is not None and d_[0] == "reversed") or short(val).startswith("<opaque ('reversed'"):
+            # pieces added back to front into a list that is flipped afterwards: the order bookkeeping of the builder rules
+            # (forward <-> at the end, reversed <-> at the front) does not cover it
+            raise Unmodelled("TagList.tagify: builder list filled with reversed(...) pieces (collected back to front and flipped later)")
         if not single:
             its = val.items if isinstance(val, SList) and val.mode == "concrete" else list(val) if isinstance(val, (list, tuple)) else None
             if its is not None and len(its) == 1 and not isinstance(its[0], SSplat):
@@ -83,6 +88,8 @@ def builder_is_result(ctx: Ctx, I: Interp, rule: str) -> None:
         data = [e for e in l.effects if e.kind == "store_attr" and e.target is v and e.key == "data"]
         adds = [a for a in builder_adds([e for e in l.effects if e.__dict__.get("in_loop") is not None])]
         lists = {id(a["list"]) for a in adds}
+        if any(e.kind == "mutcall" and e.key == "reverse" and isinstance(e.target, SList) and id(e.target) in lists for e in l.effects):
+            raise Unmodelled("TagList.tagify: builder list flipped with .reverse() after the loop (collected back to front)")
         okd = is_copy and len(data) == 1 and isinstance(data[0].value, SList) and lists == {id(data[0].value)}
         ctx.check(bool(okd), rule, "the list the loop builds becomes the data of the returned copy of self", where,
                   f"returns {short(v)} with data := {short(data[0].value) if data else None}",
